@@ -54,7 +54,7 @@ func init() {
 	)
 	addMutants(
 		Mutant{Property: "C12", Name: "save-unchecked-again", File: mach,
-			Old: "\t\t\tif ok {\n\t\t\t\taccBalances[v] = machine.Zero\n\t\t\t}", New: "\t\t\tm.Balances[a][v] = machine.Zero", Expect: "R12a:"},
+			Old: "\t\t\t\tif balance, tracked := accBalances[v]; !tracked || balance.Gt(machine.Zero) {\n\t\t\t\t\taccBalances[v] = machine.Zero\n\t\t\t\t}\n\t\t\t}", New: "\t\t\t}\n\t\t\tif balance := m.Balances[a][v]; balance == nil || balance.Gt(machine.Zero) {\n\t\t\t\tm.Balances[a][v] = machine.Zero\n\t\t\t}", Expect: "R12a:"},
 		Mutant{Property: "C12", Name: "credit-unchecked", File: mach,
 			Old: "\tif accBalance, ok := m.Balances[account]; ok {\n\t\tif _, ok := accBalance[funding.Asset]; ok {\n\t\t\tfor _, part := range funding.Parts {\n\t\t\t\tbalance := accBalance[funding.Asset]\n\t\t\t\taccBalance[funding.Asset] = balance.Add(part.Amount)\n\t\t\t}\n\t\t}\n\t}", New: "\tfor _, part := range funding.Parts {\n\t\tm.Balances[account][funding.Asset] = m.Balances[account][funding.Asset].Add(part.Amount)\n\t}", Expect: "R12a:"},
 		Mutant{Property: "C12", Name: "registry-keyed-by-address", File: mach,
